@@ -3,7 +3,7 @@ CONSTANTS
   NT = 3
   Prog <- TscProg
   Kind = "tsc"
-  Sizes = {80, 100}
+  Sizes = {1, 2, 3}
   MaxResize = 2
   Variant = "code"
 INVARIANT BodyOnce
